@@ -108,16 +108,21 @@ def replay_and_judge(ctx, name, vecs, subjects_file, shards):
                     break
             write_ndjson(cf, cs)
         ctx.tlc("TraceRewrite", CFG_TRACE % dict(cases=cf, out=of), "trace-%s-%d" % (name, ix), workers=1, timeout=3000)
-        cases = read_ndjson(cf)
+        # (read line by line, dropping the recorded trees of input and output at once: TLC has judged them and
+        #  nothing reads them afterwards; a thorough run held 10 GB of them)
+        cases = []
+        with open(cf) as f:
+            for line in f:
+                line = line.strip()
+                if line:
+                    c = json.loads(line)
+                    c.pop("in", None)
+                    c.pop("out", None)
+                    cases.append(c)
         verdicts = read_ndjson(of)
         if len(cases) != len(verdicts) or len(cases) != len(parts[ix]):
             raise Infra("trace %s-%d: %d vectors, %d cases, %d verdicts" % (name, ix, len(parts[ix]), len(cases), len(verdicts)))
         os.remove(cf)
-        for c in cases:
-            # the recorded trees of the whole input and output have been judged; nothing reads them afterwards
-            # (thousands of them held until the end of a thorough run were 10 GB)
-            c.pop("in", None)
-            c.pop("out", None)
         return list(zip(cases, verdicts))
 
     ctx.build_harness()
